@@ -42,6 +42,21 @@ def all_configs(tier):
     c.append(_base('s2_dynamic_signals', assets=['EQ:A', 'EQ:B'], universe='dynamic', entries={'EQ:A': '2020-01-07 00:00', 'EQ:B': '2020-01-07 00:00'},
                    alpha='sma_trend', nd=6, weight=1800, chunk=4,
                    bound='2 assets entering a dynamic universe together on day 1, SMA(2) signals collection, trend-following alpha (long above the average), weekly WED, 6 days'))
+    c.append(_base('s3_entries', assets=['EQ:A', 'EQ:B', 'EQ:C'], universe='dynamic', alpha='single', nd=8, weight=2500, chunk=4,
+                   entries={'EQ:A': '2020-01-01 00:00', 'EQ:B': '2020-01-08 21:00', 'EQ:C': '2020-01-08 21:01'},
+                   bound='3 assets, dynamic universe: A enters before the start, B exactly on the first rebalance instant (Wed 21:00), C one minute after it; universe-driven alpha, weekly WED, 8 days'))
+    c.append(_base('s2_entries_on_instant', assets=['EQ:A', 'EQ:B'], universe='dynamic', alpha='single', nd=6, weight=300,
+                   entries={'EQ:A': '2020-01-01 00:00', 'EQ:B': '2020-01-08 21:00'},
+                   bound='2 assets: A before the start, B enters exactly on the rebalance instant (Wed 21:00, inclusive); weekly WED, 6 days'))
+    c.append(_base('s2_entries_minute_late', assets=['EQ:A', 'EQ:B'], universe='dynamic', alpha='single', nd=6, weight=300,
+                   entries={'EQ:A': '2020-01-01 00:00', 'EQ:B': '2020-01-08 21:01'},
+                   bound='2 assets: A before the start, B enters one minute after the rebalance instant; weekly WED, 6 days'))
+    c.append(_base('s2_entries_never', assets=['EQ:A', 'EQ:B'], universe='dynamic', alpha='single', nd=6, weight=300,
+                   entries={'EQ:A': '2020-01-07 14:30', 'EQ:B': None},
+                   bound='2 assets: A enters on day 1, B has no entry date; universe-driven alpha, weekly WED, 6 days'))
+    c.append(_base('s2_entries_after_end', assets=['EQ:A', 'EQ:B'], universe='dynamic', alpha='single', nd=6, weight=300,
+                   entries={'EQ:A': '2020-01-06 00:00', 'EQ:B': '2020-02-01 00:00'},
+                   bound='2 assets: A from the start, B enters after the end of the session; weekly WED, 6 days'))
     c.append(_base('s1_burnin', burn_in='2020-01-09 21:00', nd=9, weekday='THU',
                    bound='1 asset, 9 business days, weekly THU, burn-in exactly on the first rebalance instant'))
     c.append(_base('s1_bah', rebalance='buy_and_hold', start_tod='14:30', nd=5,
@@ -69,6 +84,8 @@ PROP_CONFIGS = {
     'C07': dict(quick=['s1_weekly', 's1_weekly_holiday', 's2_weekly5', 's2_latestart'], thorough=None),
     'C08': dict(quick=['s1_weekly', 's1_bah', 's1_ls', 's1_two_rebalances'], thorough=['s1_weekly', 's1_bah', 's2_weekly', 's1_ls', 's1_ls8', 's1_two_rebalances', 's2_ls', 's1_eom', 's1_daily', 's1_weekly_fri', 's1_zerofee_weekly_mon']),
     'C18': dict(quick=['s2_weekly5', 's2_dynamic_signals'], thorough=['s2_weekly', 's2_dynamic_signals', 's1_weekly', 's2_ls', 's3_dynamic_signals']),
+    'C19': dict(quick=['s2_entries_on_instant', 's2_entries_minute_late', 's2_entries_never', 's2_entries_after_end'],
+                thorough=['s3_entries', 's2_entries_on_instant', 's2_entries_minute_late', 's2_entries_never', 's2_entries_after_end']),
     'C14': dict(quick=['s1_weekly', 's1_burnin', 's1_burnin_between', 's1_bah'], thorough=['s1_weekly', 's1_burnin', 's1_bah', 's1_burnin_between', 's1_eom', 's1_daily', 's2_weekly', 's1_weekly_fri']),
 }
 
@@ -80,7 +97,7 @@ def configs_for(prop, tier):
     for c in allc:
         if names is None or c['name'] in names:
             c = dict(c, oracle=prop, name='%s' % c['name'])
-            c['twins'] = [] if c['name'] in ('s2_latestart',) else {'C07': ['traded'], 'C08': ['traded'], 'C14': ['traded'], 'C18': ['traded']}.get(prop, [])
+            c['twins'] = [] if c['name'] in ('s2_latestart',) else {'C07': ['traded'], 'C08': ['traded'], 'C14': ['traded'], 'C18': ['traded'], 'C19': ['traded']}.get(prop, [])
             out.append(c)
     return out
 
@@ -418,6 +435,40 @@ class Session(Harness):
             obl.append(('%s:allocation_columns_in_the_same_order' % name, L.bool(base['alloc_cols'] != w['alloc_cols'])))
         return obl
 
+    def oracle_c19(self, L, i, o):
+        """composition: nothing is weighted, ordered or held for an asset before its universe entry; it is included from the
+        first rebalance at or after its entry"""
+        import pandas as pd
+        run = o['base']
+        obl = [('session_completes', L.bool(run['err'] is not None))]
+        opens, closes, reb, at, burn = self.calendar()
+        entry = {a: (pd.Timestamp(e, tz='UTC') if e else None) for a, e in self.cfg['entries'].items()}
+        inst = [(closes[k] if at == 'close' else opens[k]) for k in reb]
+        rows = {r['Date']: r for r in run['alloc']}
+        obl.append(('one_allocation_row_per_rebalance', L.bool(sorted(rows) != sorted(inst))))
+        held = set()
+        for t in inst:
+            row = rows.get(t, {})
+            for f in run['fills']:
+                if f['dt'] <= t:
+                    held.add(f['asset'])        # (a position once opened is only ever resized by these fixed positive weights)
+            for a in self.A:
+                member = entry[a] is not None and entry[a] <= t
+                obl.append(('%s:%s:weighted_iff_member' % (t, a), L.bool((a in row and row[a] != 0.0) != member)))
+                obl.append(('%s:%s:allocation_column_iff_member_or_held' % (t, a), L.bool((a in row) != (member or a in held))))
+        for n, f in enumerate(run['fills']):
+            a = f['asset']
+            first = next((t for t in inst if entry[a] is not None and entry[a] <= t), None)
+            obl.append(('fill[%d]:%s_not_traded_before_its_first_rebalance_as_a_member' % (n, a), L.bool(first is None or f['dt'] <= first)))
+        for h in run['history']:
+            if h['type'] == 'asset_transaction':
+                a = h['asset']
+                obl.append(('history:%s_event_not_before_entry' % a, L.bool(entry.get(a) is None or h['dt'] < entry[a])))
+        for a in self.A:
+            if entry[a] is None or entry[a] > inst[-1]:
+                obl.append(('%s_never_held' % a, L.bool(a in run['holdings'])))
+        return obl
+
     # ---- helpers for oracles
     def day_of(self, dt):
         d = dt.date()
@@ -455,7 +506,7 @@ class Session(Harness):
     def oracle(self, L, i, out):
         if out.kind != 'ok':
             return [('session_runs', L.true)]
-        f = {'C07': self.oracle_c07, 'C14': self.oracle_c14, 'C08': self.oracle_c08, 'C18': self.oracle_c18}[self.prop]
+        f = {'C07': self.oracle_c07, 'C14': self.oracle_c14, 'C08': self.oracle_c08, 'C18': self.oracle_c18, 'C19': self.oracle_c19}[self.prop]
         return f(L, i, out.value)
 
     def oracle_c07(self, L, i, o):
